@@ -876,6 +876,25 @@ func runC07(r *Run) {
 	r.floor("R07.9", 20)
 	ruleCyclesPositive(r, "R07.8")
 	rulePcEndComparison(r, "R07.9")
+	// R07.10 (= R05.4a): a store routed to the cache on a presence test of fewer than all of its bytes is written past the line end (index out of range in Line.set)
+	r.floor("R07.10", 7)
+	for _, v := range variants(r.W) {
+		if v.pkg == nil {
+			continue
+		}
+		for _, f := range v.pkg.Syntax {
+			for _, d := range f.Decls {
+				fd, ok := d.(*ast.FuncDecl)
+				if !ok || fd.Body == nil {
+					continue
+				}
+				sig, _ := v.info.Defs[fd.Name].Type().(*types.Signature)
+				if sig != nil && sig.Params().Len() == 1 && typeName(sig.Params().At(0).Type()) == "Execution" && sig.Results().Len() == 1 && typeName(sig.Results().At(0).Type()) == "bool" {
+					r.check(storePresenceCoversAll(r.W, v, fd), "R07.10", fmt.Sprintf("%s.%s:all-bytes", v.rel, declName(fd)), fd.Pos(), "the presence test that routes a store to the cache looks up every byte address of the store (otherwise the cache write runs past the end of the line and panics)")
+				}
+			}
+		}
+	}
 }
 
 // ruleCyclesPositive: InstructionType.Cycles() returns a constant >= 1 on every
